@@ -122,6 +122,15 @@ namespace nmtools::index
             if (minus_1_count > 1) {
                 return return_t{meta::Nothing};
             }
+            // zero extents (no empty arrays), negative extents other than -1 and an empty target are invalid
+            if (dst_numel == 0) {
+                return return_t{meta::Nothing};
+            }
+            for (size_t i=0; i<(size_t)len(dst_shape); i++) {
+                if ((index_t)at(dst_shape,i) < index_t(-1)) {
+                    return return_t{meta::Nothing};
+                }
+            }
 
             auto src_numel = (size_t)product(src_shape);
 
